@@ -66,6 +66,13 @@ PLANS = {
     'frac': lambda: [['2001-12-14 21:59:43', '2001-12-31T23:59:59'], ['', '.'], ['', '9', '99', '999999', '000000', '517599', '12345'],
                      ['', '0', '4', '5', '9'], ['', '0', '5', '9'], ['', '9', '99', '0'], ['', 'Z', ' +01:00']],
     'fracfree': lambda: [['2001-12-31 23:59:59.']] + [['0', '5', '9']] * 9,
+    # zones: every spelling class of TypeRepo!TimestampShape - blanks x sign x hour part (0, 00, one digit, 0d, two
+    # digits, out of range, three digits) x minute part (absent, 00, non-zero, out of range, one digit, no colon)
+    'tz': lambda: [['2001-12-14 21:59:43', '2001-12-31t23:59:59.5', '2001-1-1T0:00:00.'], ['', ' ', ' \t'], ['+', '-'],
+                   ['0', '00', '1', '9', '05', '10', '23', '24', '007'], ['', ':00', ':30', ':01', ':59', ':60', ':5', '30']],
+    # digit counts and separators: month / day / hour of one or two digits (three: none), minute / second of two
+    'tsdig': lambda: [['2001-'], ['1', '01', '012'], ['-'], ['5', '31', '005'], ['T', 't', ' ', '  ', '\t', ' \t', 'T '],
+                      ['7', '21', '007'], [':'], ['59', '5'], [':'], ['43', '4'], ['', '.5'], ['', '-0:45']],
     # texts that end in a line feed: resolve() only (Python's $)
     'lf': lambda: free(['1', 'null', '~', '.5', '\n', ' '], 3),
     # exponent forms
@@ -86,8 +93,8 @@ PLANS.update({
                             '.\u0131nf', '.\uff49nf', '.\u026anf', '\uff4fn', '\u043en', '\u041eff', 'n\u043e', '\uff5e',
                             '\uff1c\uff1c', '\uff1d', '\u212a', 'O\u212a', '-', '.', '1', 'n', NBSP], 2),
 })
-TIERS = {'quick': ['num5', 'wide3', 'kw2', 'sexa5', 'sexat', 'date10', 'ts', 'frac', 'lf', 'exp', 'uni_num3', 'uni_ts', 'uni_kw'],
-         'thorough': ['num6', 'num5a', 'wide4', 'kw3', 'sexa6', 'sexat', 'date10w', 'tsfull', 'frac', 'fracfree', 'lf', 'exp', 'uni_num', 'uni_ts', 'uni_kw'],
+TIERS = {'quick': ['num5', 'wide3', 'kw2', 'sexa5', 'sexat', 'date10', 'ts', 'tz', 'tsdig', 'frac', 'lf', 'exp', 'uni_num3', 'uni_ts', 'uni_kw'],
+         'thorough': ['num6', 'num5a', 'wide4', 'kw3', 'sexa6', 'sexat', 'date10w', 'tsfull', 'tz', 'tsdig', 'frac', 'fracfree', 'lf', 'exp', 'uni_num', 'uni_ts', 'uni_kw'],
          'smoke': ['kw2', 'lf', 'exp']}
 
 TAGP = 'tag:yaml.org,2002:'
@@ -246,7 +253,12 @@ def value_matches(hval, real, text):
                 (1 if tz[1] == '+' else -1) * datetime.timedelta(hours=tz[2], minutes=tz[3])
             delta = real - base.replace(tzinfo=datetime.timezone(off))
         us = delta // datetime.timedelta(microseconds=1)
-        return None if lo <= us <= hi else 'datetime %r off by %s' % (real, delta)
+        if not lo <= us <= hi:
+            return 'datetime %r off by %s' % (real, delta)
+        # the zone is part of the value (TypeRepo: local fields + offset as written)
+        if tz[0] != 'none' and real.utcoffset() != off:
+            return 'datetime %r has the UTC offset %s, the text says %s' % (real, real.utcoffset(), off)
+        return None
     if k == 'str':
         return None if type(real) is str and real == text else 'not the string itself: %r' % (real,)
     return 'unexpected H value %r' % (hval,)
@@ -371,13 +383,15 @@ def work(states, extra):
     dumpers = [getattr(yaml, n) for n in extra['dumpers']]
     rs = Resolver()
     res = {'n': 0, 'bad': [], 'drift': {}, 'samples': [], 'nontrivial': 0, 'plain': 0, 'obs': 0, 'devs': {}, 'seen': 0,
-           'traces': []}
+           'traces': [], 'shapes': set()}
     rnd = random.Random(extra['seed'])
     items = []
     for st in states:
         res['n'] += 1
         text = unchars(st['text'])
         items.append((text, st['h']['cls'], st['h']['val'], st['dev']))
+        if st['h']['shape'] and st['h']['val'][0] in ('date', 'datetime'):
+            res['shapes'].add(json.dumps(st['h']['shape'][0], sort_keys=True))
         d = st['dev'][0]
         res['devs'][d] = res['devs'].get(d, 0) + 1
     # the same text can be reached twice in a template (empty alternatives): replay it once per chunk
@@ -533,6 +547,14 @@ def gen_values(rnd, tier):
              TZ(TD(hours=23, minutes=59)), TZ(-TD(hours=23, minutes=59)), TZ(TD(0)), TZ(TD(minutes=1)), TZ(-TD(minutes=1)),
              TZ(TD(hours=14), 'LINT')]
     dts = []
+    # every class of UTC offset a zone can spell: sign x hour part (zero, one digit, two digits) x minute part (zero,
+    # non-zero) - the hours alone, the minutes alone, both
+    for sg in (1, -1):
+        for hh in (0, 1, 9, 10, 23):
+            for mm in (0, 1, 30, 59):
+                z = TZ(sg * TD(hours=hh, minutes=mm))
+                dts += [DT(2001, 12, 14, 21, 59, 43, tzinfo=z), DT(2000, 12, 31, 23, 59, 59, 999999, tzinfo=z),
+                        DT(2001, 1, 1, 0, 0, 0, 5000, tzinfo=z)]
     for z in zones:
         dts += [DT(2001, 12, 14, 21, 59, 43, 100000, tzinfo=z), DT(2001, 12, 14, 21, 59, 43, tzinfo=z),
                 DT(1, 1, 2, 0, 0, 0, 1, tzinfo=z), DT(9999, 12, 30, 23, 59, 59, 999999, tzinfo=z), DT(2000, 2, 29, 0, 0, tzinfo=z),
@@ -563,8 +585,19 @@ def value_feature(v):
 
 
 def observe_dumps(yaml, vals, dumpers, opts):
-    """-> list of (trace record, info)"""
+    """-> list of (trace record, info): one `dump` record per value (the emitted scalar against the value), and for
+    every scalar emitted without a tag one `load` record (what the loader made of the emitted text, in the emitted
+    document): the dump -> load cycle is judged through the specification at both of its steps."""
     obs = []
+
+    def readback(Dn, ev, b, v):
+        if ev.implicit[0] or ev.implicit[1]:
+            ot, ov = digest(b, ev.value.count(':') + 1)
+            if ot == 'str' and b != ev.value:
+                ot = 'other:str-changed'
+            obs.append(({'kind': 'load', 'text': chars(ev.value), 'plain': bool(ev.implicit[0]), 'tag': '', 'ot': ot, 'ov': ov, 'rb': True},
+                        {'loader': ('CSafeLoader' if Dn.startswith('C') else 'SafeLoader') + '/dumped', 'text': ev.value,
+                         'plain': bool(ev.implicit[0]), 'got': repr(b)[:80], 'dumped': repr(v), 'dumper': Dn, 'opts': opts}))
     for Dn in dumpers:
         D = getattr(yaml, Dn)
         for i in range(0, len(vals), 40):
@@ -592,8 +625,10 @@ def observe_dumps(yaml, vals, dumpers, opts):
                             b1 = yaml.load(o1, Loader=yaml.CSafeLoader if Dn.startswith('C') else yaml.SafeLoader)
                             rb = isinstance(b1, list) and len(b1) == 1 and same_value(b1[0], v)
                         except Exception:
-                            rb = False
+                            rb, b1 = False, None
                         obs.append((mk_dump(e1[0], ot, ov, rb), {'dumper': Dn, 'value': repr(v), 'feature': value_feature(v), 'opts': opts}))
+                        if isinstance(b1, list) and len(b1) == 1:
+                            readback(Dn, e1[0], b1[0], v)
                     except yaml.YAMLError as e:
                         obs.append(({'kind': 'dump', 'text': [], 'plain': False, 'tag': 'none', 'ot': ot, 'ov': ov, 'rb': False},
                                     {'dumper': Dn, 'value': repr(v), 'feature': value_feature(v), 'opts': opts, 'error': str(e)[:100]}))
@@ -605,6 +640,7 @@ def observe_dumps(yaml, vals, dumpers, opts):
                 ot, ov = digest(v)
                 if back is not None:
                     rb = same_value(back[j], v)
+                    readback(Dn, ev, back[j], v)
                 elif ev.implicit[0] or ev.implicit[1]:
                     rb = False                  # not used for untagged scalars
                 else:                           # the batch did not load (another item): read this one back alone
@@ -623,7 +659,10 @@ def same_value(a, b):
     if type(a) is float:
         return same_float(a, b)
     if type(a) is datetime.datetime:
-        return (a.tzinfo is None) == (b.tzinfo is None) and a == b
+        if (a.tzinfo is None) != (b.tzinfo is None) or a != b:
+            return False
+        off = b.utcoffset()         # the offset comes back where a YAML zone (hours and minutes) can express it
+        return off is None or bool(off.seconds % 60 or off.microseconds) or a.utcoffset() == off
     return a == b
 
 
@@ -1000,6 +1039,21 @@ def main(tier, replay=None):
     for k, c in sorted(drift.items()):
         v.note('spec-drift C08: %s (%d texts)' % (k, c))
     replayed = sum(o['obs'] for o in out)
+    # no vacuity of the timestamp part: every spelling class of TypeRepo!TimestampShape is reached by a text that has a
+    # value, the zone classes in every combination
+    shapes = [json.loads(x) for x in set().union(*[o['shapes'] for o in out])]
+    zones = {tuple(sh['zone']) for sh in shapes}
+    want = {(sg, hh, mm) for sg in '+-' for hh in ('0', '00', 'd', '0d', 'dd') for mm in ('absent', '00', 'nonzero')} | {('none',), ('Z',)}
+    seen = {'sep': {sh['sep'] for sh in shapes}, 'month digits': {sh['dig'][0] for sh in shapes}, 'day digits': {sh['dig'][1] for sh in shapes},
+            'hour digits': {sh['dig'][2] for sh in shapes}, 'fraction digits': {tuple(sh['frac']) for sh in shapes},
+            'zone gap': {(sh['gap'], 'off' if sh['zone'][0] in '+-' else sh['zone'][0]) for sh in shapes}}
+    need = {'sep': {'date', 'T', 't', 'blank', 'blanks'}, 'month digits': {1, 2}, 'day digits': {1, 2}, 'hour digits': {0, 1, 2},
+            'fraction digits': {()} | {(i,) for i in range(8)}, 'zone gap': {(0, 'none'), (0, 'Z'), (1, 'Z'), (0, 'off'), (1, 'off'), (2, 'off')}}
+    if tier != 'smoke':
+        missing = sorted(want - zones) + [(k, x) for k in need for x in sorted(need[k] - seen[k], key=repr)]
+        if missing:
+            raise SystemExit('machinery failure: timestamp spelling classes not reached by the enumeration: %r' % (missing,))
+    shape_cov = {'distinct_shapes': len(shapes), 'zone_classes': len(zones)}
 
     # ---- (b2) positions and contexts: every occurrence of a text in a stream is typed by its own text and form
     pairs = CTX_PAIRS if quick else CTX_PAIRS + CTX_PAIRS_MORE
@@ -1035,6 +1089,7 @@ def main(tier, replay=None):
     if not quick:
         obs += observe_dumps(yaml, vals, dumpers[:2], {'default_flow_style': True})
         obs += observe_dumps(yaml, vals, dumpers[:2], {'canonical': False, 'width': 20, 'indent': 4})
+    nround = sum(1 for o in obs if o[0]['kind'] == 'load')
     ndump = len(obs)
     members = regex_members(yaml, rnd, 120 if quick else 1200)
     corpus = corpus_scalars(yaml)
@@ -1063,7 +1118,8 @@ def main(tier, replay=None):
 
     v.cov = {'states': r.distinct + rc.distinct + tstates, 'transitions': r.generated + rc.generated, 'enumerated_texts': r.distinct,
              'traces_validated_against_impl': replayed + len(obs), 'replayed_observations': replayed,
-             'tlc_judged_observations': len(obs), 'tlc_judged_dump_observations': ndump,
+             'tlc_judged_observations': len(obs), 'tlc_judged_dump_observations': ndump - nround,
+             'tlc_judged_readbacks_of_dumped_scalars': nround, 'timestamp_spelling_classes': shape_cov,
              'tlc_judged_regexp_members': nmem, 'tlc_judged_corpus_scalars': ncorp, 'tlc_rejected': rejected,
              'tlc_judged_stream_occurrences': nstream, 'random_streams_not_in_shape': sskipped,
              'context_streams': rc.distinct, 'context_occurrences_judged': ctx_occ,
